@@ -70,6 +70,8 @@ type Violation struct {
 	Expected string         `json:"expected"`
 	Actual   string         `json:"actual"`
 	Phase    string         `json:"phase"`
+	Shard    int            `json:"shard"`     // the worker that saw it: shard Shard of Of
+	Of       int            `json:"of_shards"` // (0 = set by the parent itself)
 	size     int
 }
 
@@ -320,6 +322,9 @@ func (r *Run) Violate(v *Violation) {
 	}
 	if v.Phase == "" {
 		v.Phase = r.Phase
+	}
+	if v.Of == 0 && r.N > 0 && r.Phase != "" {
+		v.Shard, v.Of = r.Shard, r.N
 	}
 	b, _ := json.Marshal(v.Point)
 	v.size = len(b)
@@ -616,6 +621,7 @@ func ParentMain(id, tier string) int {
 		return sigs[i] < sigs[j]
 	})
 	knownMatched := map[string]int64{}
+	var unrepro []*Cluster // seen by a worker, not reproduced from the point alone in a fresh process
 	var violLines []string
 	var violSamples []any
 	nviol := 0
@@ -637,7 +643,7 @@ func ParentMain(id, tier string) int {
 				}
 			}
 			if repro == 0 {
-				total.InternalError("violation not reproducible on re-execution (dropped): " + cl.Sig + " " + cl.Min.Desc)
+				unrepro = append(unrepro, cl)
 				continue
 			}
 			if repro < tries {
@@ -658,6 +664,39 @@ func ParentMain(id, tier string) int {
 		}
 		if len(violSamples) < 10 {
 			violSamples = append(violSamples, map[string]any{"violation": cl.Sig, "count": cl.Count, "point": cl.Min.Point, "expected": trunc(cl.Min.Expected, 300), "actual": trunc(cl.Min.Actual, 300)})
+		}
+	}
+	// A difference that a worker saw but that a fresh process does not show for the same input is either an error of
+	// the machinery or a library whose answer depends on what the process evaluated before. The worker's execution is
+	// deterministic, so the second case is decided by running the very same shard again: if it goes wrong again, the
+	// history is the cause, and the shard is the replay.
+	if len(unrepro) > 0 {
+		w := unrepro[0].Min
+		ph := phaseOf[w.Phase]
+		confirmed := int64(0)
+		if ph != nil && w.Of > 0 {
+			confirmed = rerunShard(work, ph.Build, id, tier, w.Phase, w.Shard, w.Of, tmp)
+		}
+		if confirmed > 0 {
+			var n int64
+			for _, cl := range unrepro {
+				n += cl.Count
+			}
+			sig := id + "/outcome-depends-on-process-history/" + w.Phase
+			path := filepath.Join(verif, "replays", fmt.Sprintf("%s-history-%s-%d.json", id, w.Phase, w.Shard))
+			desc := fmt.Sprintf("%d differences (%d kinds) were seen by worker %d/%d of phase %s and again when that worker was re-run (%d), but not one of them shows when its input is evaluated alone in a fresh process; first witness: %s",
+				n, len(unrepro), w.Shard, w.Of, w.Phase, confirmed, w.Desc)
+			rb, _ := json.MarshalIndent(map[string]any{"property": id, "tier": tier, "sig": sig, "count": n, "desc": desc, "kind": "shard",
+				"phase": w.Phase, "shard": w.Shard, "of_shards": w.Of, "point": w.Point, "expected": w.Expected, "actual": w.Actual}, "", " ")
+			os.WriteFile(path, rb, 0o644)
+			nviol++
+			violLines = append(violLines, fmt.Sprintf("VIOLATION property=%s replay=%s", id, path))
+			fmt.Printf("  [%s] x%d %s\n      expected: %s\n      actual:   %s\n", sig, n, desc, trunc(w.Expected, 300), trunc(w.Actual, 300))
+			violSamples = append(violSamples, map[string]any{"violation": sig, "count": n, "point": w.Point, "expected": trunc(w.Expected, 300), "actual": trunc(w.Actual, 300)})
+		} else {
+			for _, cl := range unrepro {
+				total.InternalError("violation not reproducible on re-execution (dropped): " + cl.Sig + " " + cl.Min.Desc)
+			}
 		}
 	}
 	var ids []string
@@ -744,6 +783,28 @@ func ParentMain(id, tier string) int {
 	return 0
 }
 
+// rerunShard runs one worker again and returns the number of violations it reports.
+func rerunShard(work, build, id, tier, phase string, shard, of int, tmp string) int64 {
+	out := filepath.Join(tmp, fmt.Sprintf("rerun-%s-%d.json", phase, shard))
+	os.Remove(out)
+	cmd := exec.Command(filepath.Join(work, "bin", "jmc-"+build), "shard", id, tier, phase, strconv.Itoa(shard), strconv.Itoa(of), out)
+	cmd.Env = append(os.Environ(), "GOMAXPROCS=2", "GOTRACEBACK=single")
+	cmd.Run()
+	b, err := os.ReadFile(out)
+	if err != nil {
+		return 0
+	}
+	var part Run
+	if json.Unmarshal(b, &part) != nil {
+		return 0
+	}
+	var n int64
+	for _, cl := range part.Clusters {
+		n += cl.Count
+	}
+	return n
+}
+
 func rejudge(work, build, id, tmp string, v *Violation) bool {
 	f := filepath.Join(tmp, "rejudge.json")
 	b, _ := json.Marshal(map[string]any{"property": id, "phase": v.Phase, "point": v.Point})
@@ -798,6 +859,10 @@ func ReplayMain(file string) int {
 	var rec struct {
 		Property string `json:"property"`
 		Phase    string `json:"phase"`
+		Kind     string `json:"kind"`
+		Tier     string `json:"tier"`
+		Shard    int    `json:"shard"`
+		Of       int    `json:"of_shards"`
 	}
 	json.Unmarshal(b, &rec)
 	c := Lookup(rec.Property)
@@ -810,6 +875,18 @@ func ReplayMain(file string) int {
 		if ph.Name == rec.Phase {
 			build = ph.Build
 		}
+	}
+	if rec.Kind == "shard" {
+		// the history is the replay: run the worker again
+		tmp, _ := os.MkdirTemp(filepath.Join(work, "tmp"), "replay-")
+		defer os.RemoveAll(tmp)
+		n := rerunShard(work, build, rec.Property, rec.Tier, rec.Phase, rec.Shard, rec.Of, tmp)
+		fmt.Printf("worker %d/%d of phase %s re-run: %d violations\n", rec.Shard, rec.Of, rec.Phase, n)
+		if n > 0 {
+			fmt.Printf("VIOLATION property=%s replay=%s\n", rec.Property, file)
+			return 1
+		}
+		return 0
 	}
 	cmd := exec.Command(filepath.Join(work, "bin", "jmc-"+build), "judge", file)
 	out, _ := cmd.CombinedOutput()
